@@ -575,6 +575,24 @@ def _r4_callers(ctx, pkg, rule="R4"):
                                       expected="find_duplicate_reaction() (mode None)", found=ast.unparse(src)[:80])
                         else:
                             ctx.unrec(rule, f"{f.rsplit('/', 1)[1]}:{fn.name}:removal decided by reaction equality", (f, c.lineno), f"comparison mode is not a literal: {ast.unparse(mode)[:60]}")
+                    # the positions are positions in the list AS IT IS when they are used: nothing edits the network between the scan
+                    # that produced them and the removal that consumes them
+                    if src is not None and hasattr(src, "lineno"):
+                        recv = ast.unparse(c.func.value)
+                        edits = []
+                        for x in ast.walk(fn):
+                            ln = getattr(x, "lineno", None)
+                            if ln is None or not (src.lineno < ln < c.lineno):
+                                continue
+                            if isinstance(x, ast.Call) and isinstance(x.func, ast.Attribute) and ast.unparse(x.func.value) == recv and x.func.attr in ("remove_reaction", "add_reaction", "add_reaction_from_file", "reindex") and x is not c:
+                                edits.append((ln, ast.unparse(x)[:50]))
+                            if isinstance(x, ast.Assign) and any(ast.unparse(t) == recv or (isinstance(t, ast.Attribute) and ast.unparse(t.value) == recv and t.attr in ("allowed_species", "required_species", "reaction_list")) for t in x.targets):
+                                edits.append((ln, ast.unparse(x)[:50]))
+                        ctx.check(not edits, rule, f"{f.rsplit('/', 1)[1]}:{fn.name}:positions used on the list they were computed on", (f, c.lineno),
+                                  "the duplicate positions are consumed before the network is edited again" if not edits else
+                                  f"the positions come from a scan at line {src.lineno}, but the network is edited in between (line {edits[0][0]}: `{edits[0][1]}`): they now point at other "
+                                  "reactions -- reactions that are not duplicates are removed and the duplicates stay", expected="find_duplicate_reaction() immediately before remove_reaction(..)",
+                                  found="; ".join(f"line {a}: {b}" for a, b in edits[:3]))
                     ctx.check(got == ipos, rule, f"{f.rsplit('/', 1)[1]}:{fn.name}:remove_reaction(duplicates)", (f, c.lineno),
                               "the positions of the later copies are removed" if got == ipos else
                               "the duplicate OBJECTS (or the first occurrences) are passed to remove_reaction, which removes every reaction EQUAL to them -- the copy to keep is removed too",
